@@ -527,6 +527,16 @@ impl Env {
         V::new(&ctx, P::L(vs.iter().map(|v| v.p.clone()).collect()))
       }),
       Op::Window(n) => self.tag_inner(o.window_with_count(n)),
+      Op::WindowCounts(n) => {
+        let ctx2 = ctx.clone();
+        o.window_with_count(n).flat_map(move |w: Observable<'static, V>| {
+          let (ctx3, tok) = (ctx2.clone(), tok.clone());
+          w.count().map(move |c: usize| {
+            let _t = &tok;
+            V::new(&ctx3, P::I(c as i64))
+          })
+        })
+      }
       Op::GroupBy(k) => {
         let k = k.max(1);
         self.tag_inner(o.group_by(move |v: V| {
@@ -964,6 +974,10 @@ pub fn run_action(sh: &Arc<Shared>, a: &Action) {
       }
     }
     Action::Advance(ms) => arx_rt::sleep_ns(ms * 1_000_000),
+    Action::DropObservable => {
+      let root = lk(&sh.root).take();
+      drop(root);
+    }
     Action::Connect => {
       let p = lk(&sh.publish).clone();
       if let Some(p) = p {
